@@ -9,11 +9,15 @@ def emit(ctx, rep, dialect, profile, maxstmts):
     with open(p, "w") as f:
         f.write('SPECIFICATION Spec\nCONSTANT Dialect = "%s"\nCONSTANT MaxStmts = %d\nCONSTANT Profile = "%s"\nCONSTANT Emit = TRUE\n'
                 'INVARIANT RefReadsGenerated\nINVARIANT RetagChangesNothingElse\nINVARIANT EmitCase\nCHECK_DEADLOCK FALSE\n' % (dialect, maxstmts, profile))
-    r = tlc.run("MC_Doc", p, workers=16, scratch=ctx.scratch, xss="64m", timeout=7000, heap="12g")
+    if profile == "random":          # random walks through the generator (TLC -simulate), seeded
+        r = tlc.run("MC_Doc", p, workers=8, scratch=ctx.scratch, xss="64m", timeout=7000, heap="12g",
+                    simulate="num=%d" % (150 if ctx.thorough else 12), depth=45, seed=ctx.seed + 1)
+    else:
+        r = tlc.run("MC_Doc", p, workers=16, scratch=ctx.scratch, xss="64m", timeout=7000, heap="12g")
     if r.violation:
         raise RuntimeError("reference loader and generator disagree on the model (spec error): " + r.violation + r.raw[-2500:])
     rep.tlc("MC_Doc %s profile=%s <=%d statements: reader = writer on every (label, layout)" % (dialect, profile, maxstmts), r)
-    rep.exhaustive["generated labels %s/%s/<=%d statements" % (dialect, profile, maxstmts)] = True
+    rep.exhaustive["generated labels %s/%s/<=%d statements" % (dialect, profile, maxstmts)] = profile != "random"
     return r.printed
 
 
